@@ -57,7 +57,7 @@ namespace vc
             "sz", sz);
     }
 
-    void elem_destroy(const void* self) noexcept
+    void elem_destroy(const void* self, bool intact) noexcept
     {
         Globals& g  = G();
         auto     it = g.elems.find(self);
@@ -69,7 +69,7 @@ namespace vc
         }
         long blk, off;
         proj(self, blk, off);
-        Ev("dtor").i("id", id).i("b", blk).i("off", off);
+        Ev("dtor").i("id", id).i("b", blk).i("off", off).b("intact", intact);
     }
 
     int elem_serial(const void* self)
